@@ -20,12 +20,15 @@ def confirm(mdir, sid, pid):
         if rc != 0:
             return False, "patch does not apply: " + out
         rc1, out1 = sh("go build ./... && go test -vet=off -count=1 ./...", cwd=wt); ran.append(("go test ./... with mutant", rc1))
-        shutil.copy(os.path.join(mdir, "demo_test.go"), os.path.join(wt, "zz_demo_test.go"))
+        pkg = re.search(r"^package\s+(\w+)", open(os.path.join(mdir, "demo_test.go")).read(), re.M).group(1)
+        sub = {"types_test": "types", "types": "types", "tree": "internal/tree", "tree_test": "internal/tree",
+               "syntax": "internal/syntax", "syntax_test": "internal/syntax", "trace": "internal/trace", "trace_test": "internal/trace"}.get(pkg, "")
+        shutil.copy(os.path.join(mdir, "demo_test.go"), os.path.join(wt, sub, "zz_demo_test.go"))
         notes0 = open(os.path.join(mdir, "notes.txt")).read() if os.path.exists(os.path.join(mdir, "notes.txt")) else ""
         race = "-race " if notes0.lstrip().startswith("RACE") else ""
-        rc2, out2 = sh("go test %s-vet=off -count=1 ." % race, cwd=wt); ran.append(("go test %s. with mutant + demo" % race, rc2))
+        rc2, out2 = sh("go test %s-vet=off -count=1 ./%s" % (race, sub), cwd=wt); ran.append(("go test %s. with mutant + demo" % race, rc2))
         sh("git checkout -- .", cwd=wt)
-        rc3, out3 = sh("go test %s-vet=off -count=1 ." % race, cwd=wt); ran.append(("go test %s. clean + demo" % race, rc3))
+        rc3, out3 = sh("go test %s-vet=off -count=1 ./%s" % (race, sub), cwd=wt); ran.append(("go test %s. clean + demo" % race, rc3))
         ok = rc1 == 0 and rc2 != 0 and rc3 == 0
         if not ok:
             return False, "suite-with-mutant rc=%d demo-with-mutant rc=%d demo-clean rc=%d\n%s" % (rc1, rc2, rc3, (out1 if rc1 else out3)[-1500:])
